@@ -50,6 +50,23 @@ def expected_numeric(kind, name, v):
     return (v % (1 << bits)).to_bytes(w, 'big' if e == '>' else 'little')
 
 
+def spell_expr(v, k):
+    """(prefix lines, operand text): the value written other than as a literal - through an expression or a constant; the
+    documented bytes depend on the VALUE, not on how it is spelled (in particular not on a leading minus sign)"""
+    j = k % 9
+    if abs(v) > 1 << 70 or j < 4:
+        return '', spell(v, k)
+    if j == 4:
+        return '', ('0 - %d' % -v) if v < 0 else ('%d + 0' % v)
+    if j == 5:
+        return '', '(%d)' % v
+    if j == 6:
+        return '', ('~%d' % (-v - 1)) if v < 0 else ('~(%d)' % (-v - 1))          # ~x = -x - 1
+    if j == 7:
+        return 'VAL = %d\n    ' % v, 'VAL'
+    return 'A_ = %d\nB_ = A_ - %d\n    ' % (v + 7, 7), 'B_'
+
+
 def numeric_cases(tier, rnd):
     n_int = 6 if tier == 'quick' else 60
     k = 0
@@ -57,12 +74,14 @@ def numeric_cases(tier, rnd):
         for v in boundary_values(w, rnd, n_int):
             k += 1
             kind = 'seq' if name in SEQ else 'short'
-            yield kind, name, v, '%s %s' % (name, spell(v, k))
+            pre, txt = ('', spell(v, k)) if kind == 'seq' else spell_expr(v, k)
+            yield kind, name, v, '%s%s %s' % (pre, name, txt)
     for e in '<>':
         for c in 'bBhHiIlLqQ':
             for v in boundary_values(PACKW[c.lower()], rnd, n_int):
                 k += 1
-                yield 'pack', e + c, v, 'pack %s%s%s%s' % (e, c, ', ' if k % 2 else ' ', spell(v, k))
+                pre, txt = spell_expr(v, k)
+                yield 'pack', e + c, v, '%spack %s%s%s%s' % (pre, e, c, ', ' if k % 2 else ' ', txt)
 
 
 STRINGS = ['a', 'hello', 'hello world', '"quoted"', "it's", 'tab\\there', 'nl\\nx', 'back\\\\slash', 'x\\x41y', ' lead', 'trail ',
